@@ -4,6 +4,12 @@ import json, os
 ROOT = os.path.dirname(os.path.abspath(__file__))
 S = 'Engine S: symbolic execution of the clang-14 LLVM IR of the real translation unit (harness #includes the .cpp), z3 decides every assertion and every memory/UB obligation on every path'
 CLAIMED = {
+ 'C21': ('Bounded symbolic check of the announce throttle and lock-out kernels (lifted from the current core/Node.cpp onto a partial Node): over every timed sequence of 4 (quick) / 6 (thorough) announces of two interleaved peers an announce is admitted exactly when it respects the minimum interval and the burst limit of the window; three rejections within 120 s lock the peer out for exactly 180 s.',
+         'ONLY the throttle / lock-out clause: the admissibility gate of handle_announce (manifest, shares, PoW, version, announcer identity) is not encoded'),
+ 'C23': ('Bounded symbolic check of the upload-slot bookkeeping (member functions lifted from the current core/Node.cpp onto a partial Node): over every sequence of 3 (quick) / 4 (thorough) requests, ticks and acknowledgements with symbolic limits, peers, chunks and clock, uploads stay within the overall and per-peer limits and each peer\'s slot counter equals its uploads in flight.',
+         'dispatch_upload (lookup, signing, send, negative ack) is cut to an arbitrary outcome: the negative-acknowledgement clause is not decided; limits 0..2, two peers x two chunks'),
+ 'C24': ('Bounded symbolic check of fetch-scheduling kernels (lifted from the current core/Node.cpp onto a partial Node): retry delay = initial back-off doubled per attempt up to the maximum with the documented fallbacks, nothing scheduled once the attempt limit is exhausted; per-peer in-flight counter equals outstanding requests and never exceeds the limit over every pending/dispatch/clear sequence.',
+         'schedule_assigned_fetch / process_pending_fetches / dispatch_pending_fetch are not encoded: re-announce, manifest-expiry and held-locally clauses outside the claim'),
  'C17': ('Bounded symbolic check of the manifest codec: base64 pair vs RFC 4648 for every byte string of the listed lengths; decode_manifest(encode_manifest(m)) == m (up to whole-second expiry, empty scheme -> transport) for manifests with symbolic contents and the listed shapes; refusal exactly at the representability limits of every counted list and length-prefixed string.',
          'round-trip shapes and string lengths bounded as listed in the evidence; binary-layer jobs abstract base64 as the identity (discharged by the base64 jobs); std::map primitives modelled'),
  'C18': ('Bounded symbolic check that manifest decoding is total: base64 layer on every string of the listed lengths, URI prologue, and the binary decoder on arbitrary exact-size payloads of the listed lengths for every format version: no out-of-bounds access, no flagged-arithmetic overflow (expiry conversion included), only std::invalid_argument escapes.',
